@@ -394,9 +394,10 @@ def run_check(a, prop, tier, seed, spec, scratch, t_start):
             rr = r
         detail = next((x["detail"] for x in rr.get("viol", []) if x["prop"] == prop and x["rule"] == rule and x.get("sig", "") == sig), v["detail"])
         small["expect"] = {"prop": prop, "rule": rule, "sig": sig, "hash": rr.get("hash"), "detail": detail}
-        os.makedirs(os.path.join(V, "replays"), exist_ok=True)
+        rdir = os.path.join(V, "replays") if a.src == "/repo" else os.path.join(tempfile.gettempdir(), "verif-seeded-replays")
+        os.makedirs(rdir, exist_ok=True)
         name = "%s-%s-%s.json" % (prop, re.sub(r"[^A-Za-z0-9]+", "-", rule), r["seed"])
-        path = os.path.join(V, "replays", name)
+        path = os.path.join(rdir, name)
         json.dump(small, open(path, "w"))
         replay_files.append(path)
         out_lines.append("violation: property=%s rule=%s sig=%s seed=%s ops=%d->%d tape=%d->%d (%d runs hit it)\n  %s" % (
